@@ -19,6 +19,14 @@ fn main() {
     compare(&args[2], &args[3]);
     return;
   }
+  if args[1] == "c16child" {
+    props::c16::child_main(&args[2]);
+    return;
+  }
+  if args[1] == "c16probe" {
+    props::c16::probe(&args[2]);
+    return;
+  }
   let prop = args[1].clone();
   let mut cfg = RunCfg {
     seed: 1,
@@ -69,6 +77,7 @@ fn main() {
     "c04" => props::c04::run(&cfg),
     "c01" => props::c01::run(&cfg),
     "c06" => props::c06::run(&cfg),
+    "c16" => props::c16::run(&cfg),
     _ => {
       eprintln!("unknown property {}", prop);
       std::process::exit(2);
